@@ -79,7 +79,7 @@ static void check_case(vg::Src& s, vh::Ctx& c)
     size_t n = fc.m.n;
     static const int tcounts[] = { 2, 3, 4, 5, 7, 8, 16 };
     int threads = tcounts[s.weighted({ 70, 40, 50, 20, 20, 30, 26 })];
-    size_t shape = s.weighted({ 140, 50, 66 });
+    size_t shape = s.weighted({ 130, 46, 50, 30 });
     std::vector<OpSpec> par, seq;
     int mm = s.coin() ? va::MST_BORUVKA : va::MST_KRUSKAL, rr = s.coin() ? va::ROUTE_BASIC : va::ROUTE_CARVE;
     if (shape == 0)
@@ -92,20 +92,26 @@ static void check_case(vg::Src& s, vh::Ctx& c)
         par = { vg::op_pflood(), vg::op_single(threads) };
         seq = { vg::op_pflood(), vg::op_single(0) };
     }
-    else
+    else if (shape == 2)
     {
         par = { vg::op_single(threads), vg::op_mst(mm, rr) };
         seq = { vg::op_single(0), vg::op_mst(mm, rr) };
     }
+    else
+    {
+        // multiple-direction graph (sequential router): only the kernels run in parallel
+        double p = vg::slope_exp_value(s);
+        par = seq = { vg::op_pflood(), vg::op_multi(p) };
+    }
     // history
-    size_t nsteps = s.range(1, 5);
+    size_t nsteps = s.range(shape == 3 ? 2 : 1, 5);
     std::vector<std::vector<double>> fields = { fc.z };
     std::vector<Step> steps;
     steps.push_back({ 0, 0, 0, 0, 0, 0 });
     for (size_t i = 1; i < nsteps; ++i)
     {
         Step st{};
-        st.kind = s.chance(150) ? 1 : 0;
+        st.kind = (s.chance(150) || (shape == 3 && i == 1)) ? 1 : 0;
         if (st.kind == 0)
         {
             fields.push_back(vg::gen_field(s, fc.m));
